@@ -31,7 +31,7 @@ func init() {
 	register(&PropSpec{ID: "C08",
 		Explanation: "Totality, panic classes raised by the package's own code: over the call-graph closure of the six readers, Open/OpenFile, the five writers, Write and the exported formatting helpers, every dereference / map store / interface or function-value call (E1: forward must-dataflow of non-nil facts over access paths, with error-correlated results, constructor-non-nil fields and call-site joins for unexported parameters), every index and slice expression (E2: difference constraints from dominating tests, range/counted loops, library length contracts and interprocedural length facts), every integer division, single-result type assertion and explicit panic (E3), and every loop (E4: progress classification) is decided on all paths; unproved sites are either audited residue (rules/residue.txt) or reported.",
 		Assumptions: commonAssumptions,
-		Rules: []Rule{{"nilderef", ruleNilDeref}, {"nil-element", ruleNilProducer}, {"support-currentPage", ruleSupportCurrentPage}, {"bounds", ruleBounds}, {"divzero", ruleDivZero}, {"typeassert", ruleTypeAssert}, {"explicit-panic", rulePanicCalls}, {"support-framerate", ruleSupportFramerate}},
+		Rules: []Rule{{"nilderef", ruleNilDeref}, {"nil-element", ruleNilProducer}, {"support-currentPage", ruleSupportCurrentPage}, {"bounds", ruleBounds}, {"divzero", ruleDivZero}, {"typeassert", ruleTypeAssert}, {"explicit-panic", rulePanicCalls}, {"support-framerate", ruleSupportFramerate}, {"loops", ruleLoops}},
 	})
 	register(&PropSpec{ID: "C09",
 		Explanation: "Structural clauses of Sync (Subtitles.Add): frame condition (writes only StartAt, EndAt and the item slice).",
